@@ -617,8 +617,16 @@ class World:
         need = spec['traits'] | ainfo['traits']
         limits = truth.limits.get(spec['aff'], {})
         if spec.get('group'):
-            group = self.cell.identity_groups.get(spec['group'])
-            if group is None or not group.available:
+            # an identity is free when the group (as configured by the
+            # harness) has a number that no placed instance of the group
+            # holds; the scheduler's own free list is not consulted
+            count = truth.groups.get(spec['group'])
+            if not count:
+                return None
+            held = {a.identity for n, a in self.cell.apps.items()
+                    if a.server is not None and a.identity is not None and
+                    truth.group_of(n) == spec['group']}
+            if not set(range(count)) - held:
                 return None
         counts = cellcheck.recount_affinity(self.cell)
         leaves = cellobs.leaves(self.cell)
